@@ -319,6 +319,14 @@ pub fn run(cx: &mut Cx) {
     for pi in 0..pools {
         let s = pool(&mut r, size);
         let pairs: Vec<(usize, usize)> = (0..tb).map(|_| (r.below(size), r.below(size))).collect();
+        // Step budget proportional to the work the pool itself demands: every
+        // string is parsed 4 x n times as a package version, and a parse may
+        // allocate once per character (a length cluster has members of 4 KB).
+        // C03 is not about promptness (C17 is); the budget only has to stop a
+        // runaway.
+        let total: u64 = s.iter().map(|x| x.len() as u64 + 8).sum();
+        let allocs = (1u64 << 26) + 8 * s.len() as u64 * total;
+        cx.set_budget(allocs, allocs.saturating_mul(256));
         cx.check(
             || {
                 let mut show: Vec<&String> = s.iter().take(12).collect();
